@@ -1,8 +1,20 @@
 #!/bin/sh
-# Build the framework from files on disk only (offline).
+# Build the framework from files on disk only (offline). Every ./check rebuilds what it needs from /repo's current
+# working tree anyway (cargo notices changed sources); this only warms the build caches and verifies the oracles.
 here="$(cd "$(dirname "$0")" && pwd)"
 cd "$here" || exit 2
 export CARGO_NET_OFFLINE=true
+export VERIF_DIR="$here"
 mkdir -p work evidence
-(cd harness && cargo build --release) || exit 2
+echo "[setup] harness (release)";            (cd harness && cargo build --release --quiet --bin check --bin c19threads) || exit 2
+echo "[setup] send/sync probe";              (cd sendsync_probe && cargo build --release --quiet --target-dir ../harness/target) || exit 2
+echo "[setup] harness (debug assertions)";   (cd harness && cargo build --profile chk --quiet --bin check) || exit 2
+echo "[setup] harness (prohibit-unsafe + index-positions)"; (cd harness && cargo build --profile chk --quiet --features prohibit-unsafe,index-positions --target-dir target-safe --bin check) || exit 2
+echo "[setup] harness (utf16)";              (cd harness && cargo build --release --quiet --features utf16 --target-dir target-utf16 --bin check && cargo build --profile chk --quiet --features utf16 --target-dir target-utf16 --bin check) || exit 2
+echo "[setup] harness (nightly, pattern)";   (cd harness && cargo +nightly build --release --quiet --features pattern --target-dir target-pattern --bin check) || exit 2
+for c in default index safe both utf16 alloc; do
+  echo "[setup] cfgrun ($c)"; (cd cfgrun && cargo build --release --quiet --no-default-features --features cfg-$c --target-dir target-$c) || exit 2
+done
+echo "[setup] oracle self-test (reference model vs frozen V8 corpus)"
+./harness/target/release/check SELFTEST || exit 2
 echo "setup ok"
